@@ -10,7 +10,9 @@ for m in sorted(glob.glob(os.path.join(V, 'seeded', '*', 'meta.json'))):
     cb = d.get('caught_by', {})
     own = cb.get(prop, [])
     others = sorted(k for k in cb if k != prop)
-    if own:
+    if own and d.get('first_verdict') == 'missed':
+        verdict = 'first missed, caught after strengthening (%s): ' % d.get('strengthened', 'rule added') + ', '.join('`%s`' % k for k in own[:2])
+    elif own:
         verdict = 'caught: ' + ', '.join('`%s`' % k for k in own[:3]) + (' …' if len(own) > 3 else '')
     else:
         verdict = '**missed** — ' + d.get('missed_reason', 'reason pending')
@@ -24,7 +26,7 @@ for m in sorted(glob.glob(os.path.join(V, 'seeded', '*', 'meta.json'))):
         needs = needs[:197] + '…'
     rows.append('| %s | %s | %s | %s |' % (sid, summ, needs, verdict))
 tbl = '| id | change | needs to manifest | verdict of the checks |\n|----|--------|-------------------|-----------------------|\n' + '\n'.join(rows)
-n = len(rows); c = sum(1 for r in rows if '| caught:' in r)
+n = len(rows); c = sum(1 for r in rows if '| caught:' in r or 'caught after strengthening' in r)
 tbl += '\n\n%d confirmed seeded changes, %d reported by the check of the property they break.' % (n, c)
 p = os.path.join(V, 'DESIGN.md')
 s = open(p).read()
